@@ -8,7 +8,9 @@ LEVEL = 'proof'
 GEN_TIES = {'Pairwin': 'Props/GenTie_Pairwin.v'}
 TIE = {'condorcet.Copeland/Schulze/MinimaxCondorcet/RankedPairs/KemenyYoung': 'correspondence',
        'component/pairwin_scorer.py': 'translator (Gen/Pairwin.v regenerated on every run, Props/GenTie_Pairwin.v proves it equal to the '
-                                      'scorers of Model/Condorcet.v) + correspondence through minimax / ranked pairs'}
+                                      'scorers of Model/Condorcet.v) + correspondence through minimax / ranked pairs',
+       'sequential.Benham / TidemanAlternative / eliminate_one, RANKED_TO_CONDORCET, RANKED_SUBSETTER': 'correspondence (Model/Hybrids.v, '
+       'units 200-204; the model has the elimination step as written and as repaired, the harness probes which one the implementation has)'}
 RULE = ('corpus; random pairwise dictionaries over 3..6 candidates (Kemeny <= 5): profile-derived (truncation, shared ranks, both '
         'unranked_at_bottom), arbitrary sparse, dense with exact ties, forced Condorcet winners, counts x 1e25; every entry of '
         'condorcet.EVALUATORS, n_seats 1..|C|. Compared with the model (exact list, ties as sets) and judged by the declarative '
@@ -16,9 +18,16 @@ RULE = ('corpus; random pairwise dictionaries over 3..6 candidates (Kemeny <= 5)
         '(brute-force argmax); Smith-efficient winner in the brute-force Smith set; nobody dropped when '
         'n = |C|. profile-derived: ranked profiles (truncation, bullet votes, shared ranks, unranked_at_bottom both ways) through the LIBRARY\'s '
         'RankedToCondorcetVotes into every EVALUATORS entry, and Benham / TidemanAlternative on the profile itself, judged against the Condorcet winner / Smith set of an '
-        'INDEPENDENT pairwise count of the profile (harness). non-trivial = no Condorcet winner or a pairwise tie or a missing reverse pair; distinct by case hash')
-PARTIAL = ['Benham / TidemanAlternative: no Coq model; their Condorcet-winner and Smith clauses are judged on the implementation (stream profile-derived) '
-           'against an independent pairwise count of the ranked profile']
+        'INDEPENDENT pairwise count of the profile (harness). hybrids: ranked profiles over 1..6 candidates (bullet votes, truncation, shared '
+        'ranks, zero weights, weights up to 1e25, three-cycles with equal blocks so that first preferences tie) through Benham / '
+        'TidemanAlternative (n_seats 1, and 2 while the further tiers raise TypeError), RANKED_TO_CONDORCET, RANKED_SUBSETTER and '
+        'eliminate_one, compared with Model/Hybrids.v (result list, tie objects as sets, error kind) and judged by the declarative clauses '
+        'on the implementation\'s answer (Condorcet winner alone; plain winner in the brute-force Smith set; no undeclared exception). '
+        'non-trivial = no Condorcet winner or a pairwise tie or a missing reverse pair; distinct by case hash')
+PARTIAL = ['Benham: Smith containment is a theorem for the repaired elimination step only (C05_smith_benham, fx = true); for the step as '
+           'written on the pinned tree it is refuted (C05_smith_benham_refuted, known finding C05-hybrid-elimination-tie)',
+           'hybrids: that the fuel of the elimination loops always suffices is not proved (the theorems speak about H_ok results; '
+           'an out-of-fuel answer of the model would show as a deviation)']
 TRUSTED = []
 METHODS = ['rankedpairs_winvotes', 'rankedpairs_margins', 'rankedpairs_pwo', 'copeland_2o', 'copeland_raw', 'schulze',
            'kemeny_young', 'minimax_winvotes', 'minimax_margins', 'minimax_pwo']
@@ -219,7 +228,15 @@ def derived_case(ctx, stream, prof, bottom, method):
                 why = 'winner %s outside the Smith set %s of the profile' % (res, sm)
     if why:
         ctx.checker_false += 1
-        ctx.report(stream, case, str(r[1:]), 'n/a', '%s: %s' % (method, why))
+        kc, io, mo = None, str(r[1:]), 'n/a'
+        if hybrid and not cw and not hyb_fixed():
+            # the pinned elimination step (a Tie object used as a candidate): known when the faithful model gives the same answer
+            hc = dict(unit='hybrid', method=method, profile=prof, n=1)
+            io = ok([list(x) if isinstance(x, tuple) else x for x in r[1]]) if r[0] == 'ok' else common.err(r[1])
+            mo = common.run_model([hyb_line(hc)])[0]
+            if hyb_canon(hc, io) == hyb_canon(hc, mo):
+                kc = lambda c, i, m: 'C05-hybrid-elimination-tie'
+        ctx.report(stream, case, io, mo, '%s: %s' % (method, why), kc)
         return 1
     return 0
 
